@@ -28,7 +28,12 @@ func Keys[M ~map[K]V, K comparable, V any](site int32, m M) []K {
 	for k := range m {
 		ks = append(ks, k)
 	}
-	sortKeys(ks)
+	if !sortKeys(ks) {
+		// Keys of an interface type whose dynamic types have no common canonical
+		// order (pointers, mixed types): Go's own order, for this visit.
+		noteUncontrolled()
+		return ks
+	}
 	n := len(ks)
 	code, ok := permFor(site, n)
 	if !ok || n < 2 {
@@ -138,25 +143,44 @@ func applyPerm(order []int, code uint32) {
 }
 
 // sortKeys puts keys into a canonical order that depends on their values only.
-func sortKeys[K comparable](ks []K) {
+// It reports false (and leaves the keys alone) if they have none: that can only
+// happen for keys of an interface type, whose dynamic types are looked at here.
+func sortKeys[K comparable](ks []K) bool {
 	switch v := any(ks).(type) {
 	case []string:
 		sort.Strings(v)
-		return
+		return true
 	case []int:
 		sort.Ints(v)
-		return
+		return true
 	case []int64:
 		sort.Slice(v, func(i, j int) bool { return v[i] < v[j] })
-		return
+		return true
 	case []uint64:
 		sort.Slice(v, func(i, j int) bool { return v[i] < v[j] })
-		return
+		return true
+	}
+	if len(ks) > 0 {
+		if reflect.TypeOf(&ks[0]).Elem().Kind() == reflect.Interface {
+			t := reflect.TypeOf(any(ks[0]))
+			if t == nil || !canonicalKind(t) {
+				return false
+			}
+			for _, k := range ks[1:] {
+				if reflect.TypeOf(any(k)) != t {
+					return false
+				}
+			}
+		}
 	}
 	sort.Slice(ks, func(i, j int) bool {
 		return lessValue(reflect.ValueOf(ks[i]), reflect.ValueOf(ks[j]))
 	})
+	return true
 }
+
+//go:norace
+func noteUncontrolled() { st.PermUncontrolled++ }
 
 func lessValue(a, b reflect.Value) bool { return cmpValue(a, b) < 0 }
 
